@@ -167,22 +167,26 @@ pub fn exec(op: &str, a: &[Vec<u8>]) -> Out {
             let q: SubgroupPoint = need!(Option::from(<SubgroupPoint as GroupEncoding>::from_bytes(&need!(b32(&a[1])))));
             let s = need!(sc(&a[2]));
             let e: EdwardsPoint = p.into();
-            let mut t = p;
-            t += &q;
-            let mut u = p;
-            u -= &q;
-            let mut w = p;
-            w *= &s;
-            let mut ee = e;
-            ee += &q;
-            let mut ef = e;
-            ef -= &q;
             let mut o = vec![];
-            for r in [&p + &q, &p - &q, -p, &p * &s, &s * &p, t, u, w, Group::double(&p), [p, q].iter().sum::<SubgroupPoint>()] {
+            // every operator form (see helpers.rs): 6 additions, 6 subtractions, 10 multiplications
+            for form in 0..6usize {
+                o.extend_from_slice(&GroupEncoding::to_bytes(&crate::add_form!(p, q, form)));
+            }
+            for form in 0..6usize {
+                o.extend_from_slice(&GroupEncoding::to_bytes(&crate::sub_form!(p, q, form)));
+            }
+            for form in 0..10usize {
+                o.extend_from_slice(&GroupEncoding::to_bytes(&crate::mul_form!(p, s, form)));
+            }
+            for r in [-p, Group::double(&p), [p, q].iter().sum::<SubgroupPoint>(), [p, q].into_iter().sum::<SubgroupPoint>()] {
                 o.extend_from_slice(&GroupEncoding::to_bytes(&r));
             }
-            for r in [&e + &q, &e - &q, ee, ef] {
-                o.extend_from_slice(&GroupEncoding::to_bytes(&r));
+            // mixed EdwardsPoint (+|-) SubgroupPoint, all forms
+            for form in 0..6usize {
+                o.extend_from_slice(&GroupEncoding::to_bytes(&crate::add_form!(e, q, form)));
+            }
+            for form in 0..6usize {
+                o.extend_from_slice(&GroupEncoding::to_bytes(&crate::sub_form!(e, q, form)));
             }
             o.push(bool::from(Group::is_identity(&p)) as u8);
             Out::Ok(o)
